@@ -62,9 +62,20 @@ var c17Sources = []c17Src{
 	{name: "d", tag: "d.v2(e's document under the name d)", doc: true, docKind: 1, schedOnly: true},
 	{name: "plain", tag: "plain.v2(a document under the name plain)", doc: true, schedOnly: true},
 	{name: "d", tag: "d.v3(a text template under the name d)", content: "text {{v}} under the name of a document template", schedOnly: true},
+	// a document template whose header consists of a conditional only (no variable) while body and footer carry variables
+	{name: "f", tag: "f.doc", doc: true, docKind: 2, schedOnly: true},
 }
 
 var c17Names = []string{"base", "c1", "c2", "g", "d", "e", "plain", "missing"}
+
+func c17BaseDocF() *document.Document {
+	d := document.New()
+	d.AddParagraph("G {{v}}")
+	d.AddHeader(document.HeaderFooterTypeDefault, "{{#if c}}cond{{/if}}")
+	d.AddFooter(document.HeaderFooterTypeDefault, "F {{v}} {{w}}")
+	d.AddFooter(document.HeaderFooterTypeFirst, "FF {{w}} {{v}}")
+	return d
+}
 
 func c17BaseDocE() *document.Document {
 	d := document.New()
@@ -360,7 +371,9 @@ func (i *c17Inst) Deep() []rep.Violation { return nil }
 func c17Load(eng *document.TemplateEngine, s c17Src) error {
 	var err error
 	if s.doc {
-		if s.docKind == 1 {
+		if s.docKind == 2 {
+			_, err = eng.LoadTemplateFromDocument(s.name, c17BaseDocF())
+		} else if s.docKind == 1 {
 			_, err = eng.LoadTemplateFromDocument(s.name, c17BaseDocE())
 		} else {
 			_, err = eng.LoadTemplateFromDocument(s.name, c17BaseDoc())
@@ -698,6 +711,10 @@ var c17Scens = []c17Scen{
 	{Pre: []int{5}, Threads: [][]c17Call{{rt("d")}, {ld(11)}}},
 	{Pre: []int{6}, Threads: [][]c17Call{{rn("plain")}, {ld(10), rn("plain")}}},
 	{Pre: []int{0}, Threads: [][]c17Call{{rn("base")}, {ld(1), rn("base")}}},
+	// two renders of a document template whose parts take different paths through the header/footer pass
+	// (conditional only / variables): anything pooled or remembered between parts is shared by the two renders
+	{Pre: []int{12}, Threads: [][]c17Call{{rn("f")}, {rn("f")}}},
+	{Pre: []int{12}, Threads: [][]c17Call{{rn("f"), rn("f")}, {rn("f")}}},
 	// three threads (thorough)
 	{Pre: []int{0}, Threads: [][]c17Call{{rn("base")}, {ld(2)}, {rn("c1")}}},
 	{Pre: []int{0, 2}, Threads: [][]c17Call{{rn("c1")}, {rn("c1")}, {rm("c1")}}},
@@ -727,7 +744,7 @@ func c17DoCall(eng *document.TemplateEngine, c c17Call) string {
 		}
 		return "cleared"
 	}
-	r := c17RenderOn(eng, c.Name, c17DataV(c.Variant), c.Name == "d" && !c.AsText)
+	r := c17RenderOn(eng, c.Name, c17DataV(c.Variant), (c.Name == "d" || c.Name == "f") && !c.AsText)
 	if c.AsText || c.Name == "plain" {
 		// the text path appends the header/footer texts of a document template in the order the parts came out
 		// of a map when the template was loaded: the lines are compared as a multiset
